@@ -83,6 +83,8 @@ func main() {
 		os.Exit(cmdList(o))
 	case "sweep":
 		os.Exit(cmdSweep(o, rest))
+	case "reach":
+		os.Exit(cmdReach(o, rest))
 	case "sites":
 		if len(rest) < 1 {
 			usage()
@@ -353,6 +355,67 @@ func cmdSweep(o opts, pats []string) int {
 		}
 	}
 	fmt.Printf("TOTAL %d obligations, %d open\n", total, bad)
+	return 0
+}
+
+// cmdReach: repo functions reachable (static calls, closures, interface implementers) from the named roots, with
+// their contract status - the scope statement of the C20 sweep.
+func cmdReach(o opts, roots []string) int {
+	e := mustLoad(o)
+	seen := map[*ssa.Function]bool{}
+	var work []*ssa.Function
+	for _, r := range roots {
+		if fn := e.fnByName[r]; fn != nil {
+			work = append(work, fn)
+		} else {
+			fmt.Println("no such root:", r)
+		}
+	}
+	for len(work) > 0 {
+		fn := work[len(work)-1]
+		work = work[:len(work)-1]
+		if seen[fn] || !isRepoFn(fn) || len(fn.Blocks) == 0 {
+			continue
+		}
+		seen[fn] = true
+		for _, b := range fn.Blocks {
+			for _, ins := range b.Instrs {
+				switch x := ins.(type) {
+				case *ssa.MakeClosure:
+					work = append(work, x.Fn.(*ssa.Function))
+				case ssa.CallInstruction:
+					cc := x.Common()
+					if callee := cc.StaticCallee(); callee != nil {
+						work = append(work, callee)
+					} else if cc.IsInvoke() {
+						work = append(work, e.implementers(cc)...)
+					}
+				}
+			}
+		}
+	}
+	var names []string
+	for fn := range seen {
+		names = append(names, shortName(fn))
+	}
+	sort.Strings(names)
+	nc := 0
+	for _, n := range names {
+		c := e.db.Contracts[n]
+		tag := "no contract"
+		if c != nil {
+			tag = "contract"
+			if c.Assumed && !c.Flags["partial"] {
+				tag = "assumed"
+			}
+			if c.Flags["nosweep"] {
+				tag += " nosweep"
+			}
+			nc++
+		}
+		fmt.Printf("%-75s %s\n", n, tag)
+	}
+	fmt.Printf("REACHABLE %d functions, %d with a contract\n", len(names), nc)
 	return 0
 }
 
